@@ -84,6 +84,20 @@ CHECKS = {
         "and custom rules/Views not modelled; sub-app take-over read from the add_subapp documentation; domain sub-apps consulted "
         "first (doc/code discrepancy, reported not alarmed); harness uses make_mocked_request / the real HttpRequestParser and "
         "private app._handle; " + TRUST),
+ "C16": dict(
+   technique="RFC 6265 reference store in TLA+ (CookieStore.tla) whose scoping invariants TLC checks exhaustively on a restricted "
+             "host/path lattice and by simulation on the full one; TLC-simulated and seeded random histories are replayed into a "
+             "real CookieJar / ClientSession and TLC trace validation (CookieStoreTrace.tla) decides, after every action, all 60 "
+             "filter_cookies answers against the reference, naming the violated rule and which modelled deviation, if any, explains it",
+   text="Bounded exhaustive model checking of the reference store's own properties (no cross-site read/write, no expired or "
+        "insecure send, path scoping, save/load identity) plus conformance of the real jar: every recorded execution must give, for "
+        "every host x path x scheme after every action, exactly the cookies the RFC 6265 reference attaches; leaks and under-sends "
+        "are separate named clauses.",
+   design_ref="DESIGN.md §4 C16",
+   note="lattice of 6 hosts, 5 paths, 2 names; histories of <= ~12 actions; expiry is `expiry <= now` on a patched clock; documented "
+        "aiohttp constants (no cookies for IP hosts unless unsafe, no public-suffix list, trailing-dot Domain = host-only, shared "
+        "('','') bucket excluded); one cookie per name returned, ordering not judged; well-formed Set-Cookie spelling variants only; "
+        "yarl and http.cookies are black boxes; " + TRUST),
 }
 
 NA_REASON = "check not built yet (in progress)"
